@@ -14,6 +14,10 @@ Part 3  the reviewed classification of every map-range site of the source tree
 Part 4  rendering an object graph as text (print, printf, sprintf, errorf, string(), string
         interpolation, error()): the ADDRESS of every allocation is a second adversarial
         parameter; the reviewed table of every object type and of PrintableValue's dispatch
+Part 5  walks over a container whose elements can fail one by one (`json.marshal` over maps, sets
+        and lists with SEVERAL unmarshalable values): `JV.marshal` (Impl: keys sorted, then the
+        first failure), `JV.marshalRange` (the forbidden range-and-return variant), the reviewed
+        table of every `MarshalJSON` body, `headerValues` (http request headers)
 
 Core Lean only.
 -/
@@ -966,6 +970,13 @@ def mapSites : List (String × Nat × String × Bool × SiteClass) := [
   ("compiler.Compiler.compileMap", 0, "call,emit,return", false, .visitingOrder "C05-map-literal-order"),
   ("compiler.definitionFromSymbolTable", 0, "call,mapwrite", false, .insertFold),
   ("compiler.symbolTableFromDefinition", 0, "call,mapwrite", false, .insertFold),
+  ("modules/all.Builtins", 0, "mapwrite", false, .insertFold),
+  ("modules/exec.configureCommand", 0, "call,return", false, .firstFailure "C05-exec-params-order"),
+  ("modules/exec.configureCommand", 1, "append,call,return", false, .firstFailure "C05-exec-params-order"),
+  ("modules/http.HttpRequest.AddHeaders", 0, "call", false, .visitingOrder "C05-http-header-case-order"),
+  ("modules/http.HttpRequest.GetAttr", 0, "call,mapwrite", false, .insertFold),
+  ("modules/http.HttpRequest.Header", 0, "call,mapwrite", false, .insertFold),
+  ("modules/http.HttpResponse.Header", 0, "call,mapwrite", false, .insertFold),
   ("object.AsObjects", 0, "call,mapwrite,return", false, .firstFailure "C05-conversion-error-order"),
   ("object.FromGoType", 0, "call,mapwrite,return", false, .firstFailure "C05-conversion-error-order"),
   ("object.GoType.attrMap", 0, "mapwrite", false, .insertFold),
@@ -1021,6 +1032,219 @@ def mapSites : List (String × Nat × String × Bool × SiteClass) := [
 def preFixSites : List (String × Nat × String × Bool × SiteClass) := [
   ("os.MockFS.ReadDir", 0, "append,call", false, .visitingOrder "C05-mockfs-readdir-order"),
   ("os.VirtualOS.Environ", 0, "append", false, .visitingOrder "C05-virtualos-environ-order")
+]
+
+/-! ## Part 5 — walks over a container whose elements can fail one by one
+
+`json.marshal(x)` reaches `Map.MarshalJSON` / `Set.MarshalJSON` / `List.MarshalJSON`; the walk
+stops at the FIRST element whose own marshalling fails and reports that element's error.  With
+two or more failing elements (a function and a module, +Inf and -Inf, …) "first" must be a
+function of the container's contents: `encoding/json` collects the keys of the Go map it is
+handed (in map order), SORTS them and marshals the values in key order; `Set.MarshalJSON`
+marshals `SortedItems()`.  The adversary's visiting order of every map and set node is part of
+the tree (`perm`), as for map literals in Part 2. -/
+
+/-- the outcome of marshalling one value: its JSON text, or the error -/
+inductive MR where
+  | out (text : String)
+  | err (msg : String)
+  deriving DecidableEq, Repr
+
+def MR.errOf : MR → Option String
+  | .err e => some e
+  | .out _ => none
+
+def MR.outOf : MR → Option String
+  | .out s => some s
+  | .err _ => none
+
+mutual
+  /-- a risor value as `encoding/json` walks it -/
+  inductive JV where
+    /-- a value whose `MarshalJSON` succeeds with this text (int, string, bool, nil, finite float, …) -/
+    | ok (text : String)
+    /-- a value whose `MarshalJSON` fails with this error (function, module, builtin, channel,
+        iterator, error value; a float that is ±Inf or NaN) -/
+    | bad (msg : String)
+    | list (items : JVs)
+    /-- entries in insertion order; `perm`: the order in which a Go `range` over the map's
+        items (here: `reflect`'s `MapRange` inside `encoding/json`) visits them -/
+    | map (perm : List Nat) (entries : JEs)
+    /-- members (hash key, outcome of marshalling the member); `perm` as for maps
+        (`Set.SortedItems` ranges over the set's Go map) -/
+    | set (perm : List Nat) (members : List (HKey × MR))
+  inductive JVs where
+    | nil
+    | cons (v : JV) (rest : JVs)
+  inductive JEs where
+    | nil
+    | cons (key : String) (v : JV) (rest : JEs)
+end
+
+/-- how `encoding/json` wraps the error of a `MarshalJSON` method -/
+def wrapErr (ty e : String) : String :=
+  "json: error calling MarshalJSON for type *object." ++ ty ++ ": " ++ e
+
+/-- one container level: the elements are marshalled in the order `errOrder` and the first
+    failure aborts the walk (`firstFailure`); otherwise the texts are written in `outOrder` -/
+def seqMarshal (ty opn cls : String) (errOrder outOrder : List MR) : MR :=
+  match firstFailure MR.errOf errOrder with
+  | some e => .err (wrapErr ty e)
+  | none => .out (opn ++ ",".intercalate (outOrder.filterMap MR.outOf) ++ cls)
+
+/-- `"key":value` (the stream's keys are plain ASCII words, so quoting adds the quotes only) -/
+def labelled (k : String) : MR → MR
+  | .out t => .out ("\"" ++ k ++ "\":" ++ t)
+  | .err e => .err e
+
+/-- the entries in the order `encoding/json` marshals a Go map: the keys are collected in
+    visiting order, sorted, and each key's value is taken from the map -/
+def inKeyOrder (vis : List String) (rs : List (String × MR)) : List MR :=
+  (sortedKeys vis).filterMap (fun k => (rs.lookup k).map (labelled k))
+
+/-- the entries in the order a hand-written `for k, v := range m.items` visits them -/
+def inRangeOrder (vis : List String) (rs : List (String × MR)) : List MR :=
+  vis.filterMap (fun k => (rs.lookup k).map (labelled k))
+
+/-- a map node.  `sortFirst = true` (**Impl**, `return json.Marshal(m.items)`): failures are
+    sought in key order.  `sortFirst = false` (the forbidden variant: values marshalled one by
+    one inside a `range` over the Go map that returns at the first failure, the collected
+    texts handed to `encoding/json` afterwards): failures are sought in visiting order, the
+    successful output is still written in key order. -/
+def mapMarshal (sortFirst : Bool) (perm : List Nat) (rs : List (String × MR)) : MR :=
+  seqMarshal "Map" "{" "}"
+    (if sortFirst then inKeyOrder (applyPerm perm (rs.map (·.1))) rs
+     else inRangeOrder (applyPerm perm (rs.map (·.1))) rs)
+    (inKeyOrder (applyPerm perm (rs.map (·.1))) rs)
+
+/-- a set node: `json.Marshal(s.SortedItems())` -/
+def setMarshal (perm : List Nat) (ms : List (HKey × MR)) : MR :=
+  seqMarshal "Set" "[" "]"
+    ((sortedItems (applyPerm perm (ms.map (·.1)))).filterMap (fun k => ms.lookup k))
+    ((sortedItems (applyPerm perm (ms.map (·.1)))).filterMap (fun k => ms.lookup k))
+
+mutual
+  def JV.marshalW (sortFirst : Bool) : JV → MR
+    | .ok t => .out t
+    | .bad m => .err m
+    | .list items => seqMarshal "List" "[" "]" (items.resultsW sortFirst) (items.resultsW sortFirst)
+    | .map perm es => mapMarshal sortFirst perm (es.resultsW sortFirst)
+    | .set perm ms => setMarshal perm ms
+  def JVs.resultsW (sortFirst : Bool) : JVs → List MR
+    | .nil => []
+    | .cons v r => v.marshalW sortFirst :: r.resultsW sortFirst
+  def JEs.resultsW (sortFirst : Bool) : JEs → List (String × MR)
+    | .nil => []
+    | .cons k v r => (k, v.marshalW sortFirst) :: r.resultsW sortFirst
+end
+
+/-- **Impl** (= what the property demands): `json.Marshal` of a risor value as the code does it -/
+def JV.marshal (t : JV) : MR := t.marshalW true
+
+/-- the forbidden variant: map values marshalled inside a `range` that returns at the first failure -/
+def JV.marshalRange (t : JV) : MR := t.marshalW false
+
+mutual
+  /-- forget the adversary's choices -/
+  def JV.strip : JV → JV
+    | .ok t => .ok t
+    | .bad m => .bad m
+    | .list items => .list items.strip
+    | .map _ es => .map [] es.strip
+    | .set _ ms => .set [] ms
+  def JVs.strip : JVs → JVs
+    | .nil => .nil
+    | .cons v r => .cons v.strip r.strip
+  def JEs.strip : JEs → JEs
+    | .nil => .nil
+    | .cons k v r => .cons k v.strip r.strip
+end
+
+mutual
+  /-- no set of the tree has a NaN member (the guard of finding C05-set-nan-order) -/
+  def JV.noNaN : JV → Bool
+    | .ok _ => true
+    | .bad _ => true
+    | .list items => items.noNaN
+    | .map _ es => es.noNaN
+    | .set _ ms => Risor.C05.noNaN (ms.map (·.1))
+  def JVs.noNaN : JVs → Bool
+    | .nil => true
+    | .cons v r => v.noNaN && r.noNaN
+  def JEs.noNaN : JEs → Bool
+    | .nil => true
+    | .cons _ v r => v.noNaN && r.noNaN
+end
+
+/-- `http.Header.Add` under the canonical form of the header name, for every visited entry of
+    the `headers` map (`HttpRequest.AddHeaders`): the values filed under one canonical name, in
+    the order they were added -/
+def headerValues (canon : String → String) (name : String) (vis : List (String × String)) : List String :=
+  inVisitingOrder (·.2) (vis.filter (fun kv => canon kv.1 == name))
+
+/-- the `MarshalJSON` method of every object type, as regenerated from object/*.go:
+    `fails` (a single `return nil, <error>`), `json.Marshal(<expression>)` (a single return of
+    that call; `struct` for a struct literal), `bytes` (returns of literal byte texts only);
+    anything else — a loop, a `range`, several statements — is printed as `other…` and is not
+    in this table.  `Map` hands the Go map itself to `encoding/json` (keys sorted there), `Set`
+    its sorted listing, `List` its slice. -/
+def marshalPathsReviewed : List (String × String) := [
+  ("Bool", "bytes"),
+  ("Buffer", "bytes"),
+  ("Builtin", "fails"),
+  ("Byte", "bytes"),
+  ("ByteSlice", "json.Marshal(string(b.value))"),
+  ("Cell", "fails"),
+  ("Chan", "fails"),
+  ("Color", "json.Marshal(struct)"),
+  ("DirEntry", "json.Marshal(struct)"),
+  ("DynamicAttr", "fails"),
+  ("Entry", "fails"),
+  ("Error", "fails"),
+  ("File", "fails"),
+  ("FileInfo", "json.Marshal(struct)"),
+  ("FileIter", "fails"),
+  ("FileMode", "json.Marshal(struct)"),
+  ("Float", "json.Marshal(f.value)"),
+  ("FloatSlice", "json.Marshal(f.value)"),
+  ("Function", "fails"),
+  ("GoField", "json.Marshal(struct)"),
+  ("GoMethod", "json.Marshal(struct)"),
+  ("GoType", "json.Marshal(struct)"),
+  ("Int", "json.Marshal(i.value)"),
+  ("IntIter", "fails"),
+  ("List", "json.Marshal(ls.items)"),
+  ("ListIter", "fails"),
+  ("Map", "json.Marshal(m.items)"),
+  ("MapIter", "fails"),
+  ("Module", "fails"),
+  ("NilType", "bytes"),
+  ("Partial", "fails"),
+  ("Proxy", "json.Marshal(p.obj)"),
+  ("Set", "json.Marshal(s.SortedItems())"),
+  ("SetIter", "fails"),
+  ("SliceIter", "fails"),
+  ("String", "json.Marshal(s.value)"),
+  ("Thread", "fails"),
+  ("Time", "json.Marshal(t.value.Format(time.RFC3339))")
+]
+
+/-- the operations of the harness's failing-element stream and the site or marshal path each
+    one reaches (asked for by the harness: an operation named here without a script there, or
+    the other way round, is reported) -/
+def walkOps : List (String × String) := [
+  ("json.marshal", "object.Map.MarshalJSON / Set.MarshalJSON / List.MarshalJSON"),
+  ("json.marshal-indent", "object.Map.MarshalJSON / Set.MarshalJSON / List.MarshalJSON"),
+  ("json.marshal-try", "object.Map.MarshalJSON / Set.MarshalJSON / List.MarshalJSON"),
+  ("json.marshal-nested-list", "object.List.MarshalJSON over object.Map.MarshalJSON"),
+  ("json.marshal-nested-map", "object.Map.MarshalJSON over itself"),
+  ("go-json.Marshal", "object.Map.MarshalJSON called by the host"),
+  ("encode-json", "object.Map.Interface + encoding/json"),
+  ("http-data", "object.Map.Interface + encoding/json"),
+  ("exec-params", "modules/exec.configureCommand 0"),
+  ("exec-env-values", "modules/exec.configureCommand 1"),
+  ("exec-env-order", "modules/exec.configureCommand 1"),
+  ("http-headers", "modules/http.HttpRequest.AddHeaders 0")
 ]
 
 end Risor.C05
